@@ -12,7 +12,7 @@ EXTENDS Shape
 HodoCurve(s) ==
   LET p == s.deg[1] U == s.kv[1] n == s.size[1] IN
   [deg |-> <<p - 1>>, kv |-> <<Slice(U, 1, Len(U) - 1)>>, size |-> <<n - 1>>, rat |-> FALSE,
-   P |-> [i \in 1..(n - 1) |-> VScale(RQuot(RI(p), RSub(U[i + p + 1], U[i + 1])), VSub(s.P[i + 1], s.P[i]))]]
+   P |-> TLCEval([i \in 1..(n - 1) |-> VScale(RQuot(RI(p), RSub(U[i + p + 1], U[i + 1])), VSub(s.P[i + 1], s.P[i]))])]
 HodoSurfU(s) ==
   LET p == s.deg[1] U == s.kv[1] nu == s.size[1] nv == s.size[2] IN
   [deg |-> <<p - 1, s.deg[2]>>, kv |-> <<Slice(U, 1, Len(U) - 1), s.kv[2]>>, size |-> <<nu - 1, nv>>, rat |-> FALSE,
@@ -31,12 +31,12 @@ HodoSurfUV(s) == HodoSurfV(HodoSurfU(s))
 \* returns PK as a function [k \in 0..d][i \in 0..r] (entries beyond r-k are unused)
 RECURSIVE CDC(_, _, _, _, _, _)
 CDC(p, U, cpts, r1, r, k) ==    \* row k of PK given by recursion on k
-  IF k = 0 THEN [i \in 0..r |-> cpts[r1 + i + 1]]
+  IF k = 0 THEN TLCEval([i \in 0..r |-> cpts[r1 + i + 1]])
   ELSE LET prev == CDC(p, U, cpts, r1, r, k - 1) IN
-       [i \in 0..r |-> IF i <= r - k
+       TLCEval([i \in 0..r |-> IF i <= r - k
                        THEN VScale(RDiv(RI(p - k + 1), RSub(At(U, r1 + i + p + 1), At(U, r1 + i + k))), VSub(prev[i + 1], prev[i]))
-                       ELSE prev[i]]
-CurveDerivCpts(p, U, cpts, r1, r2, d) == [k \in 0..d |-> CDC(p, U, cpts, r1, r2 - r1, k)]
+                       ELSE prev[i]])
+CurveDerivCpts(p, U, cpts, r1, r2, d) == TLCEval([k \in 0..d |-> CDC(p, U, cpts, r1, r2 - r1, k)])
 \* evaluators.CurveEvaluator2.derivatives (A3.4); orders above the degree stay zero
 CurveDerivsAlg2(s, u, order) ==
   LET p == s.deg[1] U == s.kv[1] n == s.size[1]
@@ -54,11 +54,11 @@ SurfDerivCpts(s, r1, r2, s1, s2, d) ==
   LET p == s.deg[1] q == s.deg[2] U == s.kv[1] V == s.kv[2] nv == s.size[2] nu == s.size[1]
       du == IMin(p, d) dv == IMin(q, d) r == r2 - r1 ss == s2 - s1
       \* u-derivative control points of the column j (all rows), as in the code: curve through cpts[j + nv*i]
-      Col(j) == [i \in 1..nu |-> s.P[j + nv * (i - 1) + 1]]
+      Col(j) == TLCEval([i \in 1..nu |-> s.P[j + nv * (i - 1) + 1]])
       \* tables (0-ary LET definitions are evaluated once by TLC)
-      PKu == [j \in s1..s2 |-> CurveDerivCpts(p, U, Col(j), r1, r2, du)]
-      Row0 == [k \in 0..du |-> [i \in 0..r |-> [j \in 1..(ss + 1) |-> PKu[s1 + j - 1][k][i]]]]   \* PKL[k][0][i][*]
-      PKuv == [k \in 0..du |-> [i \in 0..(r - k) |-> CurveDerivCpts(q, Slice(V, s1, Len(V)), Row0[k][i], 0, ss, IMin(d - k, dv))]]
+      PKu == TLCEval([j \in s1..s2 |-> CurveDerivCpts(p, U, Col(j), r1, r2, du)])
+      Row0 == TLCEval([k \in 0..du |-> [i \in 0..r |-> TLCEval([j \in 1..(ss + 1) |-> PKu[s1 + j - 1][k][i]])]])   \* PKL[k][0][i][*]
+      PKuv == TLCEval([k \in 0..du |-> [i \in 0..(r - k) |-> CurveDerivCpts(q, Slice(V, s1, Len(V)), Row0[k][i], 0, ss, IMin(d - k, dv))]])
   IN [k \in 0..du |-> [l \in 0..IMin(d - k, dv) |-> [i \in 0..(r - k) |-> [j \in 0..(ss - l) |->
         IF l = 0 THEN Row0[k][i][j + 1] ELSE PKuv[k][i][l][j]]]]]
 SurfDerivsAlg2(s, prm, order) ==
